@@ -141,6 +141,9 @@ func c10Make(o OpC10, pts uint64, hasPTS bool) (*c10Desc, *hx.Failure) {
 	if f != nil {
 		return nil, f
 	}
+	if abs.Cancel {
+		abs.Type = byte(obj.TypeID()) // a cancelled descriptor carries no type on the wire: the rules apply to the type the object reports
+	}
 	return &c10Desc{obj: obj, abs: abs}, nil
 }
 
